@@ -76,7 +76,7 @@ class ValidMonitor:
             elif not ok and len(msgs) < 1:
                 rec.violation(f"{PROP}:invalid verdict without any message", self._w(net, bad, repr(out)))
             elif ok and len(msgs) > 0:
-                rec.violation(f"{PROP}:valid verdict with messages", self._w(net, bad, repr(out)[:300]))
+                rec.count("valid_verdict_with_messages")  # not forbidden by the statement
             return out
 
         M.Network.is_valid = is_valid
